@@ -74,6 +74,12 @@ pub enum OpSpec {
     Dbg(IoAddress, Value),
     Force(IoAddress, Value),
     Release(IoAddress),
+    /// debugger variable writes; the target is a global (`var < 100`) or the activation counter `n`
+    /// of program `var - 100`
+    VarWrite { var: usize, v: i64, by_instance_id: bool },
+    LvalWrite { var: usize, v: i64 },
+    ForceVar { var: usize, v: i64 },
+    ReleaseVar { var: usize },
     Adv(i64),
     Cycle,
     Watchdog,
@@ -336,7 +342,26 @@ pub fn gen_case(rng: &mut Rng) -> Case {
             expired_at.push(clock);
         }
         let op = match rng.below(100) {
-            0..=67 => OpSpec::Cycle,
+            0..=59 => OpSpec::Cycle,
+            60..=67 => {
+                // a debugger write: to a program-writable global, or to a program's activation counter
+                let to_counter = rng.chance(1, 3);
+                let (var, v) = if to_counter {
+                    (100 + rng.below(nprogs as u64) as usize, rng.below(8) as i64)
+                } else {
+                    match gen_set(rng, true) {
+                        Stmt::Set(var, v) => (var, v),
+                        _ => unreachable!(),
+                    }
+                };
+                match rng.below(8) {
+                    0..=3 => OpSpec::VarWrite { var, v, by_instance_id: to_counter },
+                    4..=5 => OpSpec::LvalWrite { var, v },
+                    6 if !to_counter => OpSpec::ForceVar { var, v },
+                    7 if !to_counter => OpSpec::ReleaseVar { var },
+                    _ => OpSpec::LvalWrite { var, v },
+                }
+            }
             68..=70 => OpSpec::Watchdog,
             71..=73 => OpSpec::SimFault,
             74..=82 => OpSpec::Restart(if rng.bool() { RestartMode::Warm } else { RestartMode::Cold }),
@@ -570,6 +595,21 @@ fn failing_simulation() -> trust_runtime::simulation::SimulationController {
 // ------------------------------------------------------------------------------------------
 // ST rendering
 // ------------------------------------------------------------------------------------------
+
+/// The `Value` of the declared type of global `var` (`var >= 100`: a program's DINT counter).
+fn typed_value(var: usize, v: i64) -> Value {
+    if var >= 100 {
+        return Value::DInt(v as i32);
+    }
+    match VARS[var].1 {
+        "BOOL" => Value::Bool(v != 0),
+        "BYTE" => Value::Byte(v as u8),
+        "WORD" => Value::Word(v as u16),
+        "DWORD" => Value::DWord(v as u32),
+        "LWORD" => Value::LWord(v as u64),
+        _ => Value::Int(v as i16),
+    }
+}
 
 fn literal(var: usize, v: i64) -> String {
     match VARS[var].1 {
@@ -888,6 +928,8 @@ struct Running {
     hier_seen: Vec<IoAddress>,
     nprogs: usize,
     ntasks: usize,
+    /// restarts that re-created the program instances so far
+    gen: usize,
 }
 
 impl Running {
@@ -922,6 +964,34 @@ impl Running {
             pending,
             rt.storage().retain().len(),
         )
+    }
+
+    fn instance_id(&self, p: usize) -> trust_runtime::memory::InstanceId {
+        match self.h.runtime().storage().get_global(&format!("I{p}")) {
+            Some(Value::Instance(id)) => *id,
+            other => panic!("program instance I{p}: {other:?}"),
+        }
+    }
+
+    /// Values of the bound/global variables and of every program's activation counter.
+    fn variables(&self) -> (Vec<i128>, Vec<i64>) {
+        let rt = self.h.runtime();
+        let gv = VARS
+            .iter()
+            .map(|(name, _, _)| match rt.storage().get_global(name) {
+                Some(Value::Bool(b)) => i128::from(*b),
+                Some(Value::Byte(v)) => i128::from(*v),
+                Some(Value::Word(v)) => i128::from(*v),
+                Some(Value::DWord(v)) => i128::from(*v),
+                Some(Value::LWord(v)) => i128::from(*v),
+                Some(Value::Int(v)) => i128::from(*v),
+                other => panic!("global {name}: {other:?}"),
+            })
+            .collect();
+        let ns = (0..self.nprogs)
+            .map(|p| as_i64(rt.storage().get_instance_var(self.instance_id(p), "n")))
+            .collect();
+        (gv, ns)
     }
 
     fn steps(&self) -> i64 {
@@ -977,6 +1047,8 @@ impl Running {
             rt.cycle_counter(),
             rt.current_time().as_nanos(),
         );
+        let (gv, ns) = self.variables();
+        line.push_str(&format!(" gv={} ns={}", join(gv.iter(), ","), join(ns.iter(), ",")));
         if let Some(ch) = changed {
             line.push_str(&format!(" ch={}", u8::from(ch)));
         }
@@ -1108,6 +1180,7 @@ pub fn run_case(n: u64, case: &Case, out: &mut Out) -> Result<(), String> {
         hier_seen: Vec::new(),
         nprogs: case.progs.len(),
         ntasks: case.tasks.len(),
+        gen: 0,
     };
     // ---- history
     let mut fault_seen = false;
@@ -1214,10 +1287,55 @@ pub fn run_case(n: u64, case: &Case, out: &mut Out) -> Result<(), String> {
                 fault_seen = true;
             }
             OpSpec::Restart(mode) => {
-                out.line(format!("restart {}", if matches!(mode, RestartMode::Warm) { "warm" } else { "cold" }));
+                let before = run.instance_id(0);
                 run.h.restart(*mode).map_err(|e| format!("restart failed: {e}"))?;
+                // whether restart re-creates the program instances is C09's subject: report it
+                let fresh = run.instance_id(0) != before;
+                if fresh {
+                    run.gen += 1;
+                }
+                out.line(format!(
+                    "restart {} {}",
+                    if matches!(mode, RestartMode::Warm) { "warm" } else { "cold" },
+                    u8::from(fresh)
+                ));
                 restarted = true;
                 out.count("op_restart");
+            }
+            OpSpec::VarWrite { var, v, by_instance_id } => {
+                let value = typed_value(*var, *v);
+                if *var >= 100 && *by_instance_id {
+                    let p = var - 100;
+                    out.line(format!("vw {} {v}", 1000 * (run.gen + 1) + p));
+                    run.control.enqueue_instance_write(run.instance_id(p), "n", value);
+                } else if *var >= 100 {
+                    unreachable!("counter writes go by instance id or by l-value");
+                } else {
+                    out.line(format!("vw {var} {v}"));
+                    run.control.enqueue_global_write(VARS[*var].0, value);
+                }
+                out.count(if run.h.runtime().faulted() { "op_varwrite_while_faulted" } else { "op_varwrite" });
+            }
+            OpSpec::LvalWrite { var, v } => {
+                use trust_runtime::eval::expr::LValue;
+                out.line(format!("lw {var} {v}"));
+                let target = if *var >= 100 {
+                    LValue::Field { name: format!("I{}", var - 100).into(), field: "n".into() }
+                } else {
+                    LValue::Name(VARS[*var].0.into())
+                };
+                run.control.enqueue_lvalue_write(None, Vec::new(), target, typed_value(*var, *v));
+                out.count(if run.h.runtime().faulted() { "op_lvalwrite_while_faulted" } else { "op_lvalwrite" });
+            }
+            OpSpec::ForceVar { var, v } => {
+                out.line(format!("fv {var} {v}"));
+                run.control.force_global(VARS[*var].0, typed_value(*var, *v));
+                out.count("op_forcevar");
+            }
+            OpSpec::ReleaseVar { var } => {
+                out.line(format!("rv {var}"));
+                run.control.release_global(VARS[*var].0);
+                out.count("op_releasevar");
             }
             OpSpec::Clear => {
                 out.line("clear");
